@@ -102,6 +102,10 @@ def run_roundtrip(case, ctx, mon):
     changed_again = False
     cur = orig
     for gi, g in enumerate(case["generations"]):
+        if kind == "hh" and (case["draw_seed"] + gi) % 2 == 0:
+            # whatever was asked last before save() must not leak into the loaded copy's answers
+            cur.query([1, 3, 10**9][(case["draw_seed"] + gi) % 3], [1, 25, 2**32 - 1, 0][(case["draw_seed"] // 2 + gi) % 4])
+            mon.count("hh_saved_right_after_a_non_default_threshold_query")
         loaded = mon.api(state.save_load, cur, kind, g["shm"], g["via_module"])
         where = f"generation {gi} shm={g['shm']} via_module={g['via_module']}"
         mon.count(f"loads:{kind}:shm={'on' if g['shm'] else 'off'}")
